@@ -484,6 +484,9 @@ func (fr *Frame) loopHeader(b *ssa.BasicBlock, li *loopInfo, phiEntry map[*ssa.P
 					if add, ok := bo.X.(*ssa.BinOp); ok && add.X == phi {
 						if lv, ok := fr.vals[bo.Y]; ok {
 							fr.assume(sLt(fr.vals[phi].Term, lv.Term))
+						} else if cst, isC := bo.Y.(*ssa.Const); isC {
+							// (range over an array: the length is a constant)
+							fr.assume(sLt(fr.vals[phi].Term, fr.val(cst).Term))
 						}
 					}
 				}
